@@ -37,7 +37,7 @@ def main(run):
     nq = 3 if not thorough else 8
     # ------------------------------------------------------------------ pinhole
     for fname, f in FAMILIES.items():
-        for srel in ([0.05, 0.3] if not thorough else [0.02, 0.05, 0.1, 0.3, 0.6]):
+        for srel in ([0.05, 0.3] if not thorough else [0.02, 0.05, 0.1, 0.2, 0.3]):   # q - 2.5 sigma > 0 here; wider ones are in the next block
             q = np.sort(np.array([rng.uniform(0.01, 0.25) for _ in range(nq)]))
             s = srel * q
             ex = []
@@ -62,10 +62,12 @@ def main(run):
                 bound = 2.0 * (L * h + M * h / s.min())
                 if e > bound + 1e-13:
                     bad = "error %.3g at h=%.3g exceeds the first-order bound %.3g" % (e, h, bound)
-            for a, b in zip(errs[:-1], errs[1:]):
-                if b > 0.75 * a + 1e-12:
-                    bad = "error does not decrease in proportion to the grid spacing: %s at h=%s" % (errs, hs)
-                stats["worst_ratio"] = max(stats["worst_ratio"], b / a if a > 0 else 0.0)
+            # first order in h, but not monotone at every refinement (the two cells cut by the window edges move
+            # with the grid): over the factor 16 in h the error must fall at least by 4, and no refinement may
+            # increase it by more than half
+            if errs[-1] > 0.25 * errs[0] + 1e-12 or any(b > 1.5 * a + 1e-12 for a, b in zip(errs[:-1], errs[1:])):
+                bad = "error does not decrease in proportion to the grid spacing: %s at h=%s" % (errs, hs)
+            stats["worst_ratio"] = max(stats["worst_ratio"], errs[-1] / errs[0] if errs[0] > 0 else 0.0)
             if bad:
                 run.add(Finding("C04:pinhole:%s" % fname, "pinhole smearing of %s (sigma=%.2g q): %s" % (fname, srel, bad), desc))
             else:
@@ -148,11 +150,25 @@ def main(run):
                 # converges to that rule, not to the integral; require its documented accuracy
                 if errs[-1] > errs[0] + 1e-12 or errs[-1] > 2e-3 * M:
                     bad = "error %s does not settle within the accuracy of the 61-point rule in the width direction" % errs
+            elif kind == "width":
+                # the width-only weights count whole calculation bins, so on grids with h comparable to W the error
+                # jumps about by O(h/W) and need not fall at every refinement; it must fall in proportion to h
+                # from the coarsest to the finest grid (factor 16 in h; a factor 4 is demanded)
+                # for q < W the reflected part [0, W-q] is counted twice and calculation points below
+                # 0.02 min(q) are never requested (C03): an interval of that length around zero is missing twice
+                floor_w = 1.5 * M * (2 * 0.02 * q.min()) / (2 * W_) if q.min() < W_ else 0.0
+                # whole-bin counting: up to one bin at either end of [q-W, q+W] is mis-assigned, so the error is
+                # bounded by (and, depending on how the edges fall, anywhere below) 2 M h/(2W) + L h: require that
+                # first-order bound on every grid
+                for n_, e_ in zip(ns, errs):
+                    h_ = (qc[-1] - qc[0]) / ns[-1] * (ns[-1] / n_)
+                    if e_ > 2.0 * M * h_ / W_ + 2.0 * Lf * h_ + floor_w + 1e-12:
+                        bad = "error %.3g with %d calculation points (h=%.3g) exceeds the first-order bound %.3g" % (e_, n_, h_, 2.0 * M * h_ / W_ + 2.0 * Lf * h_ + floor_w)
             else:
                 for a, b in zip(errs[:-1], errs[1:]):
                     if b > 0.75 * a + 1e-12:
                         bad = "error does not decrease in proportion to the grid spacing: %s for %s calculation points" % (errs, ns)
-            if errs[-1] > 2.0 * Lf * (qc[-1] - qc[0]) / ns[-1] * 4 + 1e-12:
+            if errs[-1] > 2.0 * Lf * (qc[-1] - qc[0]) / ns[-1] * 4 + 1e-12 + (floor_w if kind == "width" else 0.0):
                 bad = "error %.3g on the finest grid exceeds the first-order bound" % errs[-1]
             if bad:
                 key = "C04:slit-%s:%s" % (kind, fname) if kind == "length" else "C04:slit-width:%s:%s" % (kind, fname)
